@@ -19,7 +19,7 @@ def suites(tier):
     for tac in (0, 1):
         jobs.append(dict(id="cmp:tac=%d" % tac, func="zzH_C04_cmp", cfg=dict(tac=tac)))
         for srt in (0, 1):
-            cfg = dict(tac=tac, sorted=srt, lists=2 if q else 3, perlist=2 if q else 3)
+            cfg = dict(tac=tac, sorted=srt, lists=2 if q else 3, perlist=2)
             jobs.append(dict(id=jid("merge", cfg), func="zzH_C04_merge", cfg=cfg))
         cfg = dict(tac=tac, chunks=3 if q else 4)
         jobs.append(dict(id=jid("pass", cfg), func="zzH_C04_pass", cfg=cfg))
